@@ -301,7 +301,8 @@ def run(rep, rng, tier):
         npts = rng.choice([9, 12, 16, 20, 31, 32, 40, 60])
         dt = rng.choice([0.01, 0.02, 0.005, 0.05])
         vals, _ = gens.float_record(rng, npts, style=rng.choice(['gauss', 'sine', 'motion', 'offset']))
-        how = rng.choice(['ctor', 'setter_freqs', 'setter_frequencies', 'by_range', 'gen_band', 'ctor_range', 'read_then_by_range', 'read_then_gen_freqs', 'read_then_setter'])
+        how = rng.choice(['ctor', 'setter_freqs', 'setter_frequencies', 'by_range', 'gen_band', 'ctor_range', 'read_then_by_range', 'read_then_gen_freqs', 'read_then_setter',
+                          'read_then_add_constant', 'read_then_add_series', 'read_then_reset_values'])
         cls = rng.choice([eqsig.AccSignal, eqsig.Signal])
         site = 'Signal.smooth_fa_spectrum[%s]' % how
         args = {'values': list(map(float, vals)), 'dt': dt, 'how': how, 'class': cls.__name__}
@@ -340,7 +341,13 @@ def run(rep, rng, tier):
                 s = cls(vals.copy(), dt, smooth_fa_freqs=TG)
                 _ = np.array(s.smooth_fa_spectrum)
                 k = len(TG)
-                if how == 'read_then_by_range':
+                if how == 'read_then_add_constant':        # the record changes through the public API: the smoothed spectrum
+                    s.add_constant(rng.choice([0.5, -1.25, 3.0]))  # read next is the one of the record the object holds now
+                elif how == 'read_then_add_series':
+                    s.add_series(np.array(vals)[::-1] * 0.5)
+                elif how == 'read_then_reset_values':
+                    s.reset_values(np.array(vals)[::-1] * 2.0 + 0.25)
+                elif how == 'read_then_by_range':
                     lim = (float(F[1]) * rng.uniform(0.5, 1.5), float(F[-1]) * rng.uniform(0.5, 1.5))
                     s.set_smooth_fa_frequecies_by_range(lim, k)
                     grid.append((lim, k))
@@ -472,8 +479,8 @@ def run(rep, rng, tier):
             kcase(2, site, args, list(map(float, d)), len(F) >= 4, site, a=A, d=d)
 
     # ---- (K) structure on real Signal objects: matrix route through the object's own spectrum
-    for c in range(6 if quick else 60):
-        npts = rng.choice([16, 33, 64, 100, 128])
+    for c in range(10 if quick else 60):
+        npts = [33, 100, 16, 64, 128][c % 5] if c < 10 else rng.choice([16, 33, 64, 100, 128])
         dt = rng.choice([0.01, 0.02, 0.005])
         vals, _ = gens.float_record(rng, npts)
         site = 'matrix_vs_direct[AccSignal]'
@@ -483,6 +490,18 @@ def run(rep, rng, tier):
             s = eqsig.AccSignal(vals.copy(), dt)
             if rng.random() < 0.5:
                 s.smooth_fa_frequencies = make_targets(rng, s.fa_frequencies)
+            hist = [None, 'add_constant', 'add_series', 'reset_values', 'add_constant'][c % 5]
+            if hist is not None:
+                # the smoothed spectrum is read, the record is then changed through the public API, and everything below is
+                # taken from the object as it is now: its smoothed spectrum is the weighted mean of its CURRENT amplitudes
+                _ = np.array(s.smooth_fa_spectrum)
+                if hist == 'add_constant':
+                    s.add_constant([0.5, -1.25, 3.0][c % 3])
+                elif hist == 'add_series':
+                    s.add_series(vals[::-1] * 0.5)
+                else:
+                    s.reset_values(vals[::-1] * 2.0 + 0.25)
+                args['history'] = 'read smooth_fa_spectrum; %s; read again' % hist
             M = fq.calc_smoothing_matrix_konno_1998(s.fa_frequencies, s.smooth_fa_frequencies)
             return s, M, fq.calc_smooth_fa_spectrum_w_custom_matrix(s, M), np.array(s.smooth_fa_spectrum)
         r = guarded(build)
